@@ -455,16 +455,16 @@ end
 
 /-- `serde_json`'s reader gives up beyond 127 container levels ("recursion limit exceeded"),
 `serde_yaml_ng`'s beyond 128, `toml`'s beyond 81 (the top-level table included). The writer's limit is
-128 for all formats (`writerDepthLimit`), so a value of depth 128 (JSON) or 82 … 128 (TOML) serializes
-but cannot be read back (finding F-C20-5). Measured constants of
+127 for all formats (`writerDepthLimit`), so only a value of depth 82 … 127 through TOML serializes
+but cannot be read back (finding F-C20-5); JSON and YAML read everything the writer emits. Measured constants of
 the pinned crates; exercised at the boundary by (K) on every run. -/
 def jsonDepthLimit : Nat := 127
 def yamlDepthLimit : Nat := 128
 def tomlDepthLimit : Nat := 81
 
-/-- `NESTING_LIMIT` of serialize.rs (commit c53b26d): entering a list, tuple or map while 128
-containers are already being serialized is an error ("nested more than 128 levels deep") -/
-def writerDepthLimit : Nat := 128
+/-- `NESTING_LIMIT` of serialize.rs (commits c53b26d, d9992fd): entering a list, tuple or map while
+127 containers are already being serialized is an error ("nested more than 127 levels deep") -/
+def writerDepthLimit : Nat := 127
 
 /-- **serialize.rs as it is**: the mapping `ser`, refused as a whole when some path of the value
 nests more than `writerDepthLimit` containers (the traversal fails at the first container of level
@@ -527,7 +527,7 @@ def serG (g : Graph) : Nat → List Nat → Nat → Option SVal
   | 0, _, _ => none
   | fuel + 1, path, i =>
     if i ∈ path then none   -- "a container that contains itself"
-    else if writerDepthLimit ≤ path.length then none   -- "nested more than 128 levels deep"
+    else if writerDepthLimit ≤ path.length then none   -- "nested more than 127 levels deep"
     else
       match g[i]? with
       | none => none
